@@ -33,6 +33,7 @@ type LoopSpec struct {
 	Modifies   []SExpr
 	HasMod     bool
 	FrameOld   bool // objects that existed at function entry are not modified by this loop (checked)
+	WritesOnly *Clause // `loop n writes-only elems(s)`: of the heap, this loop writes only elements of slice s (checked)
 }
 
 type LetDef struct {
@@ -336,6 +337,17 @@ func (ss *SpecSet) ParseSpecFile(path, defaultPkg string) {
 							cur.Loops[n] = &LoopSpec{}
 						}
 						cur.Loops[n].FrameOld = true
+						continue
+					}
+				}
+				if len(fs) == 3 && fs[1] == "writes-only" {
+					if n, err := strconv.Atoi(fs[0]); err == nil {
+						if cur.Loops[n] == nil {
+							cur.Loops[n] = &LoopSpec{}
+						}
+						body := strings.TrimSpace(fs[2])
+						body = strings.TrimSuffix(strings.TrimPrefix(body, "elems("), ")")
+						cur.Loops[n].WritesOnly = &Clause{Kind: "loop writes-only", Text: fs[2], Expr: parse(l, body), File: path, Line: l.no}
 						continue
 					}
 				}
